@@ -36,8 +36,10 @@ class C03(Check):
             'nine signatures + FAT look-alike on zero/random/text '
             'backgrounds with lengths straddling the decision points 6, 64, '
             '512, 592, 34 KiB, 256 KiB; valid / mutated / truncated images; '
-            'text and binary files) x allowed_formats (None, singletons, '
-            'subsets with/without raw) x read-size sequence x inspector '
+            'text and binary files; signatures planted near the end of the '
+            'stream) x allowed_formats (None, singletons, subsets with/'
+            'without raw) x expected_format (none, inside or outside the '
+            'allowed set) x read-size sequence (incl. short reads) x inspector '
             'order, through InspectWrapper (read() or iteration) or '
             'detect_file_format (open() seam); wrapper.format sampled after '
             'every read. distinct = distinct (signature-model vector, '
@@ -51,11 +53,13 @@ class C03(Check):
                    '"maybe" (signature present but stream shorter than the '
                    'decision point, VMDK text territory) asserts nothing']
     FAULT_KINDS = ('short_read', 'early_eof_before_decision_point',
-                   'empty_chunk', 'allowed_formats_restricted')
+                   'empty_chunk', 'allowed_formats_restricted',
+                   'expected_format_given')
     PROBES = ('two_or_more_yes', 'exactly_one_yes', 'all_no', 'has_maybe',
               'decided_before_eof', 'raw_result', 'multiple_formats_error',
               'no_allowed_match_error', 'fat_lookalike',
-              'late_nonascii_text')
+              'late_nonascii_text', 'expected_outside_allowed',
+              'cut_off_by_expected_inspector', 'tail_signature')
 
     def gen(self, st, tier, index, total):
         rng = st('content')
@@ -74,6 +78,19 @@ class C03(Check):
         case = {'content': rec, 'cls': cls, 'via': via,
                 'allowed': gen_allowed(st('config')) if via != 'detect'
                 else None}
+        xrng = st('expected')
+        if via != 'detect' and xrng.random() < 0.3:
+            # expected_format: a format outside allowed_formats (its
+            # inspector must not come into play) or any format (the stream
+            # may then be cut off, which is C06's subject)
+            al = case['allowed']
+            outside = [f for f in F.FORMATS if al and f not in al]
+            if outside and xrng.random() < 0.6:
+                case['expected'] = xrng.choice(outside)
+            else:
+                case['expected'] = xrng.choice(F.FORMATS)
+        if via == 'wfile':
+            case['ask'] = core.weighted(xrng, imgsim.ASK_MODES)
         if via == 'detect':
             c = srng.random()
             case['short'] = [srng.choice((0, 1, 7, 100, 512, 4095))
@@ -126,6 +143,8 @@ class C03(Check):
         if n >= 512 and data[0x10] == 2 and data[0x15] == 0xF8 and \
                 data[510:512] == b'\x55\xaa':
             bump(pr, 'fat_lookalike')
+        if info.get('tail_sigs'):
+            bump(pr, 'tail_signature')
         lb = (case['content'].get('p') or {}).get('late_byte')
         if lb:
             bump(pr, 'late_nonascii_text')
@@ -147,6 +166,14 @@ class C03(Check):
             base.eat_chunk = rec_eat
         samples = []
         final = finals = None
+        expected = case.get('expected')
+        aborted = False
+        if expected:
+            bump(fa, 'expected_format_given')
+            if expected not in aset:
+                bump(pr, 'expected_outside_allowed')
+        if case.get('ask'):
+            bump(fa, 'short_read')
         try:
             if case['via'] == 'detect':
                 files = []
@@ -186,21 +213,33 @@ class C03(Check):
                     else sizes
                 src = SimSource(data, plan)
                 try:
-                    w = m.InspectWrapper(src, allowed_formats=allowed)
+                    w = m.InspectWrapper(src, allowed_formats=allowed,
+                                         expected_format=expected)
                     imgsim.order_inspectors(w, case.get('order') or
                                             list(F.FORMATS))
                     idx = 0
                     while True:
-                        if pers == 'file':
-                            chunk = w.read(plan[idx] if idx < len(plan)
-                                           else 4096)
-                            done = not chunk
-                        else:
-                            try:
-                                chunk = next(w)
-                                done = False
-                            except StopIteration:
-                                done = True
+                        try:
+                            if pers == 'file':
+                                chunk = w.read(imgsim.ask_size(
+                                    case.get('ask'),
+                                    plan[idx] if idx < len(plan) else 4096))
+                                done = not chunk
+                            else:
+                                try:
+                                    chunk = next(w)
+                                    done = False
+                                except StopIteration:
+                                    done = True
+                        except core.StepCapExceeded:
+                            raise
+                        except Exception:
+                            if expected is None or expected not in aset:
+                                raise
+                            # the expected format's inspector cut the stream
+                            # off: legitimate, judged by C06
+                            aborted = True
+                            break
                         samples.append(imgsim.w_format(w))
                         idx += 1
                         if done:
@@ -221,7 +260,10 @@ class C03(Check):
         finally:
             if orig is not None:
                 base.eat_chunk = orig
-        log.add('run', case['via'], final, finals, samples[-3:], sorted(fed))
+        log.add('run', case['via'], final, finals, samples[-3:], sorted(fed),
+                expected, aborted, case.get('ask'))
+        if aborted:
+            bump(pr, 'cut_off_by_expected_inspector')
 
         # 4. totality
         for v in samples + [final] + ([finals] if isinstance(finals, str)
@@ -229,9 +271,10 @@ class C03(Check):
             if isinstance(v, str) and v.startswith('EXC:'):
                 viol('detection_raised_other', exc=v, inspector='wrapper')
                 break
-        # 5. no revision
+        # 5. no revision (not asserted across a cut-off: what the expected
+        # inspector's failure does to the decision is not part of C03)
         decided = None
-        for i, v in enumerate(samples):
+        for i, v in enumerate(samples if not aborted else ()):
             if decided is None:
                 if v is not None:
                     decided = (i, v)
@@ -250,8 +293,21 @@ class C03(Check):
         if outside:
             viol('inspector_outside_allowed_was_fed', names=outside,
                  allowed=sorted(aset))
-        # 1-3 on the final result
-        if isinstance(final, str) and not final.startswith('EXC:'):
+        # 1-3 on the final result (the model describes the whole content; after
+        # a cut-off only a prefix was read, so only the allowed-set rule is
+        # kept)
+        if aborted:
+            if isinstance(final, str) and not final.startswith('EXC:') and \
+                    final != 'ImageFormatError' and final not in aset:
+                viol('result_outside_allowed', result=final,
+                     allowed=sorted(aset))
+            if isinstance(finals, list):
+                for x in finals:
+                    if x not in aset:
+                        viol('result_outside_allowed', result=x,
+                             allowed=sorted(aset))
+            finals = None
+        elif isinstance(final, str) and not final.startswith('EXC:'):
             if final == 'raw':
                 bump(pr, 'raw_result')
             if final == 'ImageFormatError':
@@ -335,6 +391,11 @@ class C03(Check):
             c = copy.deepcopy(case)
             c['short'] = []
             yield c
+        for key in ('expected', 'ask'):
+            if case.get(key):
+                c = copy.deepcopy(case)
+                c.pop(key)
+                yield c
         if case.get('rle'):
             sizes = streams.expand(case['rle'])
             tot = sum(sizes)
